@@ -793,6 +793,52 @@ func (s *scenario) audit() string {
 	return verdict
 }
 
+// diagEntries describes, for a reply judged stale, every live answer-cache entry holding one of
+// its marker records and the stored delegations: what a reader needs to tell a served-too-long
+// entry from a harness artefact.
+func (s *scenario) diagEntries(resp *dns.Msg) string {
+	now := time.Now()
+	want := map[string]bool{}
+	for _, sec := range [][]dns.RR{resp.Answer, resp.Ns} {
+		for _, rr := range sec {
+			if o, _ := s.origin(rr); o != nil {
+				c := dns.Copy(rr)
+				c.Header().Ttl = 0
+				want[c.String()] = true
+			}
+		}
+	}
+	var out []string
+	for _, ce := range cache.VerifC08CacheEntries(s.p.Cache) {
+		if ce.Msg == nil {
+			continue
+		}
+		hit := false
+		for _, sec := range [][]dns.RR{ce.Msg.Answer, ce.Msg.Ns} {
+			for _, rr := range sec {
+				c := dns.Copy(rr)
+				c.Header().Ttl = 0
+				if want[c.String()] {
+					hit = true
+				}
+			}
+		}
+		if hit {
+			cut := "none"
+			if !ce.CutUntil.IsZero() {
+				cut = ce.CutUntil.Sub(now).Round(time.Millisecond).String()
+			}
+			out = append(out, fmt.Sprintf("%s/%d(cd=%v age=%s ttl-left=%s cut-left=%s)", lcn(ce.Question.Name), ce.Question.Qtype, ce.CD,
+				now.Sub(ce.Stored).Round(time.Millisecond), ce.Stored.Add(ce.TTL).Sub(now).Round(time.Millisecond), cut))
+		}
+	}
+	for _, e := range authority.VerifC08Entries(resolver.VerifDelegations(s.p.Resolver)) {
+		out = append(out, fmt.Sprintf("deleg:%s#b%d left=%s", lcn(e.Zone), bucket(e), e.ExpiresAt.Sub(now).Round(time.Millisecond)))
+	}
+	sort.Strings(out)
+	return fmt.Sprintf(" | diag vnow=%s offset=%s prefetches=%d entries=[%s]", s.vnow().Round(time.Millisecond), s.p.Offset, cache.VerifC08Prefetches(s.p.Cache), strings.Join(out, " "))
+}
+
 // origin identifies which incarnation published a record (nil: cannot tell).
 func (s *scenario) origin(rr dns.RR) (*inst, string) {
 	switch v := rr.(type) {
@@ -926,7 +972,7 @@ func execQuery(s *scenario, f []string) vlib.Res {
 			}
 		}
 		if stale != "" {
-			verdict = stale
+			verdict = stale + s.diagEntries(resp)
 		}
 		impl = fmt.Sprintf("rcode=%s an=%d old=%d new=%d", dns.RcodeToString[resp.Rcode], len(resp.Answer), olds, news)
 	}
